@@ -232,6 +232,13 @@ pub fn main(tier: Tier, replay: Option<String>) -> i32 {
         let b = json!({"menu_lines": menu.len(), "max_lines": 4, "domain": [0, 1, 2, 3]});
         jobs.push(job(DefSpace { label: "chardef/low-domain-4-lines".into(), menu, max_lines: 4, probes: (0..=5).collect() }, Strategy::Dfs, Some(1500), b));
     }
+    // the class that names every class, and the two flags that are no classes, laid over each other in every order
+    {
+        let sets2: Vec<Vec<&'static str>> = vec![vec!["ALL"], vec!["NOOOVBOW"], vec!["NOOOVBOW2"], vec!["ALL", "NOOOVBOW"], vec!["KANJI"], vec!["USER4", "NOOOVBOW2"]];
+        let menu = menu_low(&[0, 1, 2, 3], &sets2);
+        let b = json!({"menu_lines": menu.len(), "max_lines": 3, "domain": [0, 1, 2, 3], "class_sets": sets2});
+        jobs.push(job(DefSpace { label: "chardef/all-and-flags".into(), menu, max_lines: 3, probes: (0..=5).collect() }, Strategy::Dfs, Some(tier.pick(40, 900)), b));
+    }
     // around the surrogate gap and the top of the code space
     let mut menu = Vec::new();
     for (lo, hi) in [
